@@ -250,6 +250,7 @@ def content_bindings(ctx, wexe):
     for rep in range(ctx.n(6, 60)):
         text, info = gen_inputs.multi_sim_input(ctx.rng, user_numbers=[1, 5])
         text += "KNOBS\n -logfile true\nSOLUTION 8\n Na 1\n Clx 3\nEND\nDUMP\n -all\nEND\n"
+        text += "SELECTED_OUTPUT 7\n -file named_by_input_7.sel\n -reset false\n -pH true\nSOLUTION 9\n K 1\nEND\n"
         cap = ctx.rng.choice([10, 40, 200])
         ops = [["spy"], ["c", "LoadDatabase", 0, os.path.join(vlib.DB, "phreeqc.dat")]]
         for fam in ("Output", "Log", "Dump"):
@@ -265,7 +266,7 @@ def content_bindings(ctx, wexe):
         ops.append(["c", "GetSelectedOutputCount", 0])
         ops.append(["c", "GetSelectedOutputRowCount", 0])
         ops.append(["f", "GetSelectedOutputRowCountF", 0])
-        for n in (1, 5):
+        for n in (1, 5, 7):
             ops += [["c", "SetCurrentSelectedOutputUserNumber", 0, n], ["c", "GetSelectedOutputFileName", 0], ["m", "GetSelectedOutputFileName", 0], ["f", "GetSelectedOutputFileNameF", 0, 40]]
         with vlib.scratch("c13b") as d:
             res, rc, err = wrap.run_script(wexe, ops, d)
@@ -273,9 +274,9 @@ def content_bindings(ctx, wexe):
                 ctx.violation("content:driver", "driver failed: %s" % err[-200:], {"kind": "ops", "ops": ops})
                 return
             # documented defaults embed the user number and the instance id: selected_<n>.<id>.out (no -file, no SetSelectedOutputFileName)
-            for k, n in enumerate((1, 5)):
+            for k, n in enumerate((1, 5, 7)):
                 base = i0 + 10 + 4 * k
-                want = "selected_%d.0.out" % n
+                want = "selected_%d.0.out" % n if n != 7 else "named_by_input_7.sel"     # a -file name given in the input is the name reported
                 got = (res[base + 1]["r"], res[base + 2]["r"], res[base + 3]["r"]["buf"][:40].rstrip(" "))
                 if any(g != want for g in got):
                     ctx.violation("content:default-sel-file-name", "after a run that defines SELECTED_OUTPUT %d (no -file) its default file name is %r (C, C++, F), documented default %r" % (n, got, want),
